@@ -15,6 +15,7 @@ fn replay(file: &str) -> ! {
         "miner-life/c03" => replay_with(&c03::scenario(tier).0, &v),
         "miner-life/c04" => replay_with(&c04::scenario(tier).0, &v),
         "miner-life/c05" => replay_with(&c05::scenario(tier).0, &v),
+        "handover" => replay_with(&c13::scenario(tier).0, &v),
         "multisig" => replay_with(&c12::scenario(tier).0, &v),
         s if s.starts_with("c09") => c09::replay(&v),
         s if s.starts_with("c17") => c17::replay(&v),
@@ -56,6 +57,7 @@ fn real_main() {
         "C08" => c08::run(&tier),
         "C09" => c09::run(&tier),
         "C12" => c12::run(&tier),
+        "C13" => c13::run(&tier),
         "C16" => c16::run(&tier),
         "C17" => c17::run(&tier),
         "C18" => c18::run(&tier),
